@@ -491,8 +491,11 @@ mod boxed {
     fn eq(&self, other: &Value) -> bool {
       if self.is_num() && other.is_num() {
         self.to_num() == other.to_num()
+      } else if self.0 == other.0 {
+        true
       } else {
-        self.0 == other.0
+        // two addresses may still be the same list, see ObjectRef
+        self.is_obj() && other.is_obj() && self.to_obj() == other.to_obj()
       }
     }
   }
@@ -505,6 +508,9 @@ mod boxed {
       if self.is_num() {
         ValueKind::Number.hash(state);
         (self.to_num() as u64).hash(state);
+      } else if self.is_obj() {
+        ValueKind::Obj.hash(state);
+        self.to_obj().hash(state);
       } else {
         self.0.hash(state);
       }
